@@ -1,2 +1,118 @@
-From PK Require Import Session.Session Session.SessionCases.
-Theorem c17_placeholder : True. Proof. exact I. Qed.
+(* C17 - no request is evaluated before the client's identity is established.
+   Model: Session/Session.v (cert_checks, slugs_authenticate, run_plugins/authenticate, establish, handle);
+   the request parser and the engine are parameters of the theorems (universally quantified). *)
+From Coq Require Import ZArith List Bool String.
+From PK Require Import Base.Bytes Base.Prim Session.Encode Session.EncodeProofs Session.Session Session.SessionProofs Session.Toy.
+Import ListNotations.
+Open Scope Z_scope.
+
+Section AnyParserAnyEngine.
+  Variable request : Type.
+  Variable parse : bytes -> option request.
+  Variable rq_version : request -> Z * Z.
+  Variable estate : Type.
+  Variable engine : request -> identity -> estate -> eresult * estate.
+  Notation handle := (handle request parse rq_version estate engine).
+
+  (* 1. Request processing is entered iff the session established an identity (and the request decodes), and the
+        credential it is entered with is exactly that identity. *)
+  Theorem engine_called_only_if_established : forall g f st,
+    call (fst (handle g f st)) =
+    match establish g, parse f with
+    | Some id, Some _ => Some id
+    | _, _ => None
+    end.
+  Proof. exact (call_iff_established request parse rq_version estate engine). Qed.
+
+  (* 2. Every failing path: engine not entered, engine state untouched, one answer which decodes as
+        AUTHENTICATION_NOT_SUCCESSFUL (at version 1.0 when the certificate itself is refused, at the request's
+        version otherwise) - or INVALID_MESSAGE when, on top of that, the request itself cannot be decoded. *)
+  Theorem auth_failure_response :
+    (forall rq, ver_ok (rq_version rq)) ->
+    forall g f st, establish g = None -> clock_ok (now g) ->
+    snd (handle g f st) = st /\ call (fst (handle g f st)) = None /\
+    exists b, out (fst (handle g f st)) = Sent b /\
+      exists v reason m, dec_err_response b = Some {| ef_version := v; ef_ts := now g; ef_count := 1; ef_status := OPERATION_FAILED;
+                                                   ef_reason := reason; ef_msg := m |}
+        /\ ((reason = R_AUTHENTICATION_NOT_SUCCESSFUL /\ (cert_checks g = None \/ exists rq, parse f = Some rq /\ v = rq_version rq))
+            \/ (reason = R_INVALID_MESSAGE /\ parse f = None /\ cert_checks g <> None /\ v = (1, 0))).
+  Proof.
+    intros Hv g f st He Hc. rewrite (auth_failure_step request parse rq_version estate engine g f st He). cbn [fst snd out call].
+    split; [reflexivity|]. split; [reflexivity|].
+    exact (failure_outcome_decodes request parse rq_version Hv g f Hc).
+  Qed.
+End AnyParserAnyEngine.
+Print Assumptions engine_called_only_if_established.
+Print Assumptions auth_failure_response.
+
+(* 3. The session's behaviour depends on the engine through that single call only: with no identity established
+      (or an undecodable request) two arbitrary engines are indistinguishable; with identity `id` they are
+      indistinguishable as soon as they agree on `engine rq id st`. *)
+Theorem engine_not_consulted_unless_established :
+  forall (request : Type) (parse : bytes -> option request) (rq_version : request -> Z * Z) (estate : Type)
+         (engine1 engine2 : request -> identity -> estate -> eresult * estate) g f st,
+  (establish g = None \/ parse f = None
+   \/ exists id rq, establish g = Some id /\ parse f = Some rq /\ engine1 rq id st = engine2 rq id st) ->
+  handle request parse rq_version estate engine1 g f st = handle request parse rq_version estate engine2 g f st.
+Proof.
+  intros request parse rq_version estate e1 e2 g f st [H | [H | (id & rq & H1 & H2 & H3)]].
+  - apply unestablished_ignores_engine; assumption.
+  - apply undecodable_ignores_engine; assumption.
+  - eapply engine_used_once_with_identity; eassumption.
+Qed.
+Print Assumptions engine_not_consulted_unless_established.
+
+(* 4. Characterisation of `establish` against the property's list of conditions.
+      Necessary: a certificate is present, carries clientAuth when the check is on, yields exactly one common name
+      (the user), and either no plugin block is consulted (then there are no groups) or a consulted block's SLUGS
+      service vouches - both look-ups answered 200 - and its group list accompanies the identity. *)
+Theorem establish_spec : forall g user groups,
+  establish g = Some (user, groups) ->
+  exists c, peer g = Some c
+    /\ (tls_client_auth g = true -> c_eku c = EkuClient)
+    /\ c_cns c = [user]
+    /\ ((forall p, In p (plugins g) -> consulted p = false) /\ groups = None
+        \/ exists p, In p (plugins g) /\ consulted p = true /\ vouches p groups).
+Proof. exact establish_conditions. Qed.
+Print Assumptions establish_spec.
+
+(*    Sufficient: with the certificate conditions met, no consulted block gives (user, None); and the first consulted
+      block that vouches decides, provided every block before it is skipped or refuses (without a non-string url,
+      which aborts authentication as a whole). *)
+Theorem establish_spec_converse_no_plugins : forall g c user,
+  peer g = Some c -> (tls_client_auth g = true -> c_eku c = EkuClient) -> c_cns c = [user] ->
+  (forall p, In p (plugins g) -> consulted p = false) ->
+  establish g = Some (user, None).
+Proof. exact establish_no_plugins. Qed.
+Print Assumptions establish_spec_converse_no_plugins.
+
+Theorem establish_spec_converse_plugins : forall g c user pre p post groups,
+  peer g = Some c -> (tls_client_auth g = true -> c_eku c = EkuClient) -> c_cns c = [user] ->
+  plugins g = pre ++ p :: post ->
+  (forall q, In q pre -> consulted q = false \/ (p_url q <> UrlNotString /\ slugs_authenticate c q = None)) ->
+  consulted p = true -> vouches p groups ->
+  establish g = Some (user, groups).
+Proof. exact establish_first_voucher. Qed.
+Print Assumptions establish_spec_converse_plugins.
+
+(* ---- the hypotheses are satisfiable by non-trivial configurations (Session/Toy.v) ---- *)
+Example established_ex :
+  establish toy_cfg = Some ("alice"%string, None)
+  /\ establish (slugs_cfg [slugs_off; slugs_404; slugs_ok]) = Some ("alice"%string, Some ["Group A"%string])
+  /\ call (fst (toy_handle (slugs_cfg [slugs_404; slugs_ok]) [66] 0%nat)) = Some ("alice"%string, Some ["Group A"%string]).
+Proof. vm_compute. repeat split; reflexivity. Qed.
+
+Example auth_failure_ex :
+  establish no_cert_cfg = None /\ establish (slugs_cfg [slugs_404]) = None /\ establish (slugs_cfg [slugs_500]) = None
+  /\ establish (slugs_cfg [slugs_404; slugs_off]) = None
+  /\ clock_ok (now no_cert_cfg)
+  /\ toy_handle (slugs_cfg [slugs_404]) [66] 7%nat
+     = ({| out := error (slugs_cfg [slugs_404]) (1, 2) R_AUTHENTICATION_NOT_SUCCESSFUL MSG_AUTH; call := None |}, 7%nat)
+  /\ error (slugs_cfg [slugs_404]) (1, 2) R_AUTHENTICATION_NOT_SUCCESSFUL MSG_AUTH <> Escaped.
+Proof. repeat split; vm_compute; congruence. Qed.
+
+Example establish_spec_converse_plugins_ex :
+  plugins (slugs_cfg [slugs_off; slugs_404; slugs_ok]) = [slugs_off; slugs_404] ++ slugs_ok :: []
+  /\ consulted slugs_off = false /\ slugs_authenticate alice_cert slugs_404 = None
+  /\ consulted slugs_ok = true /\ vouches slugs_ok (Some ["Group A"%string]).
+Proof. vm_compute. repeat split; reflexivity. Qed.
